@@ -1127,7 +1127,24 @@ def remove_duplicate_functions(source: str, preserve: Collection[str]) -> str:
     function_defs = collections.defaultdict(set)
 
     for node in core.filter_nodes(root.body, ast.FunctionDef):
-        function_defs[abstractions.hash_node(node, preserve)].add(node)
+        # Only names that the function binds itself may differ between duplicates. The names
+        # it takes from outside (globals, builtins, other functions) mean what they say.
+        bound_names = {node.name}
+        bound_names.update(arg.arg for arg in core.walk(node, ast.arg))
+        bound_names.update(
+            name.id for name in core.walk(node, ast.Name(ctx=(ast.Store, ast.Del)))
+        )
+        bound_names.update(
+            funcdef.name
+            for funcdef in core.walk(node, (ast.FunctionDef, ast.AsyncFunctionDef))
+        )
+        bound_names.difference_update(
+            name
+            for declaration in core.walk(node, (ast.Global, ast.Nonlocal))
+            for name in declaration.names
+        )
+        free_names = {name.id for name in core.walk(node, ast.Name)} - bound_names
+        function_defs[abstractions.hash_node(node, set(preserve) | free_names)].add(node)
 
     delete = set()
     renamings = {}
